@@ -434,3 +434,87 @@ func routeFacts(s *ast.Schema, op *ast.OperationDefinition, route func(typ, fiel
 	}
 	walk(op.SelectionSet, root, "")
 }
+
+// keyReuseRouted refines f:composite-key-reused with the routing table: the depth-first search for a response
+// key only goes wrong for keys that lie on the path of an insertion point, i.e. when the later sibling carrying
+// the reused key has, somewhere below it, a field that needs another service than the one answering its parent.
+func keyReuseRouted(s *ast.Schema, op *ast.OperationDefinition, route func(typ, field string) (string, bool), tags map[string]bool) {
+	var flatten func(set ast.SelectionSet) []*ast.Field
+	flatten = func(set ast.SelectionSet) []*ast.Field {
+		var out []*ast.Field
+		for _, sel := range set {
+			switch x := sel.(type) {
+			case *ast.Field:
+				out = append(out, x)
+			case *ast.InlineFragment:
+				out = append(out, flatten(x.SelectionSet)...)
+			case *ast.FragmentSpread:
+				if x.Definition != nil {
+					out = append(out, flatten(x.Definition.SelectionSet)...)
+				}
+			}
+		}
+		return out
+	}
+	key := func(f *ast.Field) string {
+		if f.Alias != "" {
+			return f.Alias
+		}
+		return f.Name
+	}
+	ownerOf := func(f *ast.Field, cur string) (owner string, foreign bool) {
+		owner = cur
+		od := f.ObjectDefinition
+		if od == nil || f.Name == "id" || f.Name == "__typename" {
+			return owner, false
+		}
+		if od.Kind == ast.Object {
+			if u, ok := route(od.Name, f.Name); ok {
+				return u, u != cur
+			}
+			return owner, false
+		}
+		for _, pt := range s.PossibleTypes[od.Name] {
+			if u, ok := route(pt.Name, f.Name); ok && u != cur {
+				return u, true
+			}
+		}
+		return owner, false
+	}
+	var needsStep func(f *ast.Field, cur string) bool
+	needsStep = func(f *ast.Field, cur string) bool {
+		for _, c := range flatten(f.SelectionSet) {
+			o, foreign := ownerOf(c, cur)
+			if foreign || needsStep(c, o) {
+				return true
+			}
+		}
+		return false
+	}
+	var subtreeHas func(f *ast.Field, k string) bool
+	subtreeHas = func(f *ast.Field, k string) bool {
+		for _, c := range flatten(f.SelectionSet) {
+			if key(c) == k || subtreeHas(c, k) {
+				return true
+			}
+		}
+		return false
+	}
+	var walk func(set ast.SelectionSet, cur string, root bool)
+	walk = func(set ast.SelectionSet, cur string, root bool) {
+		fs := flatten(set)
+		for j, fj := range fs {
+			if len(fj.SelectionSet) == 0 {
+				continue
+			}
+			oj, _ := ownerOf(fj, cur)
+			for i := 0; i < j; i++ {
+				if key(fs[i]) != key(fj) && subtreeHas(fs[i], key(fj)) && needsStep(fj, oj) {
+					tags["f:composite-key-reused-on-step-path"] = true
+				}
+			}
+			walk(fj.SelectionSet, oj, false)
+		}
+	}
+	walk(op.SelectionSet, "", true)
+}
